@@ -30,6 +30,9 @@ pub enum TopicRequest {
 
     RemoveSubscription {
         name: SubscriptionName,
+        /// The internal ID of the subscription to remove: a subscription that was
+        /// created under the same name in the meantime is left alone.
+        internal_id: u32,
         responder: oneshot::Sender<Result<(), RemoveSubscriptionError>>,
     },
 
@@ -115,8 +118,12 @@ impl TopicActor {
                 let _ = responder.send(result);
             }
 
-            TopicRequest::RemoveSubscription { name, responder } => {
-                let result = self.remove_subscription(name);
+            TopicRequest::RemoveSubscription {
+                name,
+                internal_id,
+                responder,
+            } => {
+                let result = self.remove_subscription(name, internal_id);
                 let _ = responder.send(result);
             }
 
@@ -224,9 +231,18 @@ impl TopicActor {
         &mut self,
         subscription: Arc<Subscription>,
     ) -> Result<(), AttachSubscriptionError> {
-        // Insert the subscription.
-        if let Entry::Vacant(entry) = self.subscriptions.entry(subscription.name.clone()) {
-            entry.insert(subscription);
+        // Insert the subscription. A subscription of the same name that is on its way
+        // out (its deletion has started, its removal request has not got here yet) does
+        // not keep its successor from being attached.
+        match self.subscriptions.entry(subscription.name.clone()) {
+            Entry::Vacant(entry) => {
+                entry.insert(subscription);
+            }
+            Entry::Occupied(mut entry) => {
+                if entry.get().deletion_started() && !subscription.deletion_started() {
+                    entry.insert(subscription);
+                }
+            }
         }
 
         Ok(())
@@ -235,9 +251,14 @@ impl TopicActor {
     fn remove_subscription(
         &mut self,
         name: SubscriptionName,
+        internal_id: u32,
     ) -> Result<(), RemoveSubscriptionError> {
         // Remove the subscription. This is called from the `Subscription` itself.
-        self.subscriptions.remove(&name);
+        if let Entry::Occupied(entry) = self.subscriptions.entry(name) {
+            if entry.get().internal_id == internal_id {
+                entry.remove();
+            }
+        }
         Ok(())
     }
 
